@@ -44,12 +44,16 @@ def eval_call(ex: Executor, node: ast.Call, st: State):
         ov = getattr(ex.contract, "call_overrides", {})
         if txt in ov:
             return ov[txt](ex, node, st)
+        if txt in getattr(ex.contract, "coercers", ()):
+            return call_coercer(ex, node, st)
         return call_method(ex, node, st)
     if isinstance(f, ast.Name):
         name = f.id
         ov = getattr(ex.contract, "call_overrides", {})
         if name in ov:
             return ov[name](ex, node, st)
+        if name in getattr(ex.contract, "coercers", ()):
+            return call_coercer(ex, node, st)
         if name in st.env:
             return call_value(ex, node, st, st.env[name])
         if name in BUILTINS:
@@ -580,6 +584,11 @@ def call_method(ex: Executor, node, st):
             outs.extend(model(ex, node, s, rt))
             continue
         cm = CONTAINER_METHODS.get(meth)
+        if cm is None and meth in getattr(ex.contract, "callable_attrs", ()):
+            # obj.attr(...) where attr holds a user callable
+            fv = sv_val(Heap(ex, s).attr(rt, meth))
+            outs.extend(call_value(ex, node, s, fv))
+            continue
         if cm is None:
             raise Unsupported(f"method .{meth}() at {ex.where(node)} has no model")
         outs.extend(cm(ex, node, s, rt))
@@ -709,3 +718,71 @@ def eval_listcomp(ex, node, st):
 
 def eval_dictcomp(ex, node, st):
     raise Unsupported(f"dict comprehension at {ex.where(node)}")
+
+
+# --- float(x) / int(x): conversions of primitives ---------------------------------------
+INT2FLOAT = z3.Function("int2float", Val, Val)
+FLOAT_OVERFLOW = z3.Function("float_overflow", Val, T.B)
+
+
+def b_float(ex, node, st):
+    """float(x) for x an int (the only use in the targets): the float int2float(x), or
+    OverflowError when |x| >= 2**1024 (abstracted as the predicate float_overflow(x))"""
+    outs = []
+    for s, k, vs in ex.eval_many(node.args, st):
+        if k == "exc":
+            outs.append((s, k, vs))
+            continue
+        x = ex.val_of(vs[0])
+        c = cls(x)
+        isf = s.fork().assume(sub(c, K("float")))
+        if ex.feasible(isf):
+            outs.append((isf, "val", sv_val(x)))
+        isi = s.fork().assume(z3.Not(sub(c, K("float"))), sub(c, K("int")))
+        if ex.feasible(isi):
+            ok = isi.fork().assume(z3.Not(FLOAT_OVERFLOW(x)))
+            r = INT2FLOAT(x)
+            ok.assume(cls(r) == K("float"), T.alloc0[r])
+            outs.append((ok, "val", sv_val(r)))
+            ov = isi.fork().assume(FLOAT_OVERFLOW(x))
+            if ex.feasible(ov):
+                outs.append(_exc(ex, ov, "OverflowError"))
+        oth = s.fork().assume(z3.Not(sub(c, K("float"))), z3.Not(sub(c, K("int"))))
+        if ex.feasible(oth):
+            # str -> ValueError or a float, None / containers -> TypeError: both possible
+            outs.append(_exc(ex, oth.fork(), "TypeError"))
+            outs.append(_exc(ex, oth.fork(), "ValueError"))
+            r2 = ex.fresh("flt")
+            oth.assume(cls(r2) == K("float"))
+            outs.append((oth, "val", sv_val(r2)))
+    return outs
+
+
+BUILTINS["float"] = b_float
+
+
+# --- coercers: user functions (cls, data) -> value, which reject by raising ValidationError ----
+COERCE_OK = z3.Function("coerce_ok", Val, Val, Val, T.B)
+COERCED = z3.Function("coerced", Val, Val, Val, Val)
+COERCE_ERR = z3.Function("coerce_err", Val, Val, Val, Val)
+
+
+def call_coercer(ex, node, st):
+    """coercer(cls, data): returns coerced(f, cls, data) iff coerce_ok(f, cls, data), else raises
+    the ValidationError coerce_err(f, cls, data); other exceptions of user coercers are excepted
+    by the statement of C03"""
+    outs = []
+    for s, k, vs in ex.eval_many([node.func] + list(node.args), st):
+        if k == "exc":
+            outs.append((s, k, vs))
+            continue
+        f, c, d = (ex.val_of(v) for v in vs)
+        ok = s.fork().assume(COERCE_OK(f, c, d))
+        ko = s.fork().assume(z3.Not(COERCE_OK(f, c, d)))
+        if ex.feasible(ok):
+            outs.append((ok, "val", sv_val(COERCED(f, c, d))))
+        if ex.feasible(ko):
+            e = COERCE_ERR(f, c, d)
+            ko.assume(cls(e) == K("ValidationError"), T.alloc0[e])
+            outs.append((ko, "exc", e))
+    return outs
